@@ -161,7 +161,7 @@ void consume_loop(Consumer consumer, Round& R, ConsPlan& plan, int cidx) {
     auto take = [&](const Item& it, size_t k) {
       uint64_t id = it.id.get("item.id");
       uint64_t a = it.a.get("item.a");
-      dsched::point();
+      if (index + k >= (size_t)R.pre) dsched::point();  // (no extra preemption points while walking the quiet prefix)
       uint64_t b = it.b.get("item.b");
       if (id == 0 || id > W->items.size())
         dsched::fail("unpublished", "consumer %d got an item that was never published at index %zu (id %lu)", cidx, index + k, (unsigned long)id);
@@ -243,7 +243,7 @@ void run_round(Chooser& c, Topic& topic, int round) {
   for (int i = 0; i < ncons; i++) {
     ConsPlan& cp = R.cons[(size_t)i];
     cp.is_const = c.chance(1, 4);
-    cp.skip = (R.pre > 0 && c.chance(3, 4)) ? R.pre - c.range(0, 8) : 0;
+    cp.skip = (R.pre > 0 && c.chance(7, 8)) ? R.pre - c.range(0, 8) : 0;
     int nb = c.range(1, 3);
     dsched::describe(" C%d%s[skip=%d:", i + 1, cp.is_const ? "c" : "", cp.skip);
     for (int k = 0; k < nb; k++) {
